@@ -315,6 +315,9 @@ func TestVerifC06Flow(t *testing.T) {
 		mix.datagrams = append(mix.datagrams, qa.datagrams[0])
 		mix.datagrams = append(mix.datagrams, qb.datagrams...)
 		mix.datagrams = append(mix.datagrams, qa.datagrams[1:]...)
+		// a connection whose first Initial was consumed earlier may legitimately still be waiting at
+		// the end; a closing datagram that is not a QUIC Initial must flush whatever is held
+		mix.datagrams = append(mix.datagrams, append([]byte{0x40 | byte(g.r.Intn(64))}, g.bytes(g.r.Range(20, 60))...))
 		_, out := c06RunFlowNoise(mix, nil)
 		g.stats.Inc("flow.two_connections")
 		var got []string
@@ -336,7 +339,7 @@ func TestVerifC06Flow(t *testing.T) {
 			}
 			count[k]--
 		}
-		if missing > 0 || strings.HasPrefix(out, "crash:") {
+		if missing > 0 || strings.HasPrefix(out, "crash:") || c06FlowField(out, "held") != "0" {
 			fmt.Fprintf(viol, "two QUIC connections on one 4-tuple: %d of %d datagrams never reached the outbound: %.300s\n", missing, len(mix.datagrams), out)
 		}
 	}
